@@ -13,7 +13,7 @@
    the model (this property is PARTIAL by nature).
 
    No proofs here.  The last part is the correspondence entry point run_case_C18. *)
-From SV Require Import Model.Common Model.Metrics Model.ShutdownBacklog.
+From SV Require Import Model.Common Model.Metrics Model.ShutdownBacklog Model.ShutdownWaits.
 Local Open Scope Z_scope.
 
 (* ------------------------------------------------------------------------------------------ *)
@@ -355,5 +355,7 @@ Definition run_case_C18 (c : case) : bytes :=
     str_ok ++ colon :: [98;115;61]%N ++ opt_text bs ++ 59%N :: [98;61]%N ++ dec_of_Z (B p sh)
     ++ 59%N :: [99;108;61]%N ++ opt_text cl ++ 59%N :: [99;108;97;115;115;61]%N ++ class
   | 2%N => run_backlog_case c
+  | 3%N => run_qfull_case c        (* queue full at the stop: Model/ShutdownWaits.v, part A *)
+  | 4%N => run_listener_case c     (* connection registering after the stop: part B *)
   | _ => bad_case_output
   end.
